@@ -27,6 +27,16 @@ for _fn, _params in (
              canaries={"unreachable": "False"})
 
 
+@specfn(STR, n=STR, t=INT)
+def k5_trunc(n, t):
+    """the name without its first t characters (the prefix).  Kept a symbol in the logic (the self-reference is never
+    taken): string slicing under a quantifier makes the solvers diverge, so the definition is only instantiated at the
+    ground argument of the current iteration."""
+    if t < 0:
+        return k5_trunc(n, 0)
+    return n[t:]
+
+
 def _clauses(ctx, P, res, memb, i=None):
     """the clauses for one side.  Without `i`: the postconditions.  With `i`: the loop invariant after the first i groups
     (K = list of group names), which speaks about the ghost map `owner` (glyph -> full name of the kept group it is in)
@@ -38,21 +48,23 @@ def _clauses(ctx, P, res, memb, i=None):
     cl = {
         # every kept group is a prefixed UFO group with at least one exported member; its class is exactly the exported
         # members, sorted
-        "kept": f"all(n.startswith('{P}') and n in {G} and {pr.format(n='n')} != set() and {res}[n] == sorted({pr.format(n='n')}) for n in {res})",
+        "kept": f"all(n.startswith('{P}') and n in {G} and {pr.format(n='n')} != set() and {res}[n] == sorted({pr.format(n='n')}) for n in set({res}))",
     }
     if i is None:
         # every exported member of a kept group is mapped to that group's truncated name ...
-        cl["member-complete"] = f"all(all(implies(g in {gs}, g in {memb} and {memb}[g] == n[{T}:]) for g in {G}[n]) for n in {res})"
+        cl["member-complete"] = f"all(all(implies(g in {gs}, g in {memb} and {memb}[g] == k5_trunc(n, {T})) for g in {G}[n]) for n in set({res}))"
         # ... and every entry of the membership map comes from a kept group containing the glyph
-        cl["member-sound"] = f"all(g in {gs} and any(g in {G}[n] and n[{T}:] == {memb}[g] for n in {res}) for g in {memb})"
+        cl["member-sound"] = f"all(g in {gs} and any(g in {G}[n] and k5_trunc(n, {T}) == {memb}[g] for n in set({res})) for g in set({memb}))"
         # the kept groups of one side are pairwise disjoint: "the group of a glyph" is well defined
-        cl["disjoint"] = f"all(all(implies(n != m, all(not (g in {gs} and g in {G}[m]) for g in {G}[n])) for m in {res}) for n in {res})"
+        cl["disjoint"] = f"all(all(implies(n != m, all(not (g in {gs} and g in {G}[m]) for g in {G}[n])) for m in set({res})) for n in set({res}))"
         # a prefixed group with exported members is dropped only if it overlaps a kept one
-        cl["dropped-overlap"] = f"all(implies(n.startswith('{P}') and {pr.format(n='n')} != set(), n in {res} or ({pr.format(n='n')} & set({memb})) != set()) for n in {G})"
+        cl["dropped-overlap"] = f"all(implies(n.startswith('{P}') and {pr.format(n='n')} != set(), n in {res} or ({pr.format(n='n')} & set({memb})) != set()) for n in set({G}))"
     else:
-        cl["own-dom"] = f"all(g in {memb} for g in owner) and all(g in owner for g in {memb})"
-        cl["own-sound"] = f"all(owner[g] in {res} and g in {G}[owner[g]] and g in {gs} and {memb}[g] == owner[g][{T}:] for g in owner)"
-        cl["own-complete"] = f"all(all(implies(g in {gs}, g in owner and owner[g] == n) for g in {G}[n]) for n in {res})"
+        cl["own-dom"] = f"all(g in {memb} for g in set(owner)) and all(g in owner for g in set({memb}))"
+        cl["own-sound"] = f"all(owner[g] in {res} and g in {G}[owner[g]] and g in {gs} and {memb}[g] == tn[owner[g]] for g in set(owner))"
+        # tn: kept group -> its truncated name (the only place where a name is taken apart)
+        cl["trunc"] = f"all(n in tn and tn[n] == k5_trunc(n, {T}) for n in set({res}))"
+        cl["own-complete"] = f"all(all(implies(g in {gs}, g in owner and owner[g] == n) for g in {G}[n]) for n in set({res}))"
         cl["dropped-overlap"] = f"all(implies(K[a].startswith('{P}') and {pr.format(n='K[a]')} != set(), K[a] in {res} or ({pr.format(n='K[a]')} & set({memb})) != set()) for a in range({i}))"
     return cl
 
@@ -63,9 +75,15 @@ def _groups_contract(target, ctx, params, k):
     P, m = (P1, "side1Membership") if k == 1 else (P2, "side2Membership")
     M = f"side{k}Membership"
     memb_loop = Loop(done="D", invariants={
-        "old-kept": f"all(g in {M} and {M}[g] == m0[g] for g in m0) and all(g in owner and owner[g] == o0[g] for g in o0)",
+        "old-memb": f"all(g in {M} and {M}[g] == m0[g] for g in set(m0))",
+        "old-owner": "all(g in owner and owner[g] == o0[g] for g in set(o0))",
         "new-added": f"all(g in {M} and {M}[g] == name_truncated and g in owner and owner[g] == name for g in D)",
-        "nothing-else": f"all(g in m0 or g in D for g in {M}) and all(g in o0 or g in D for g in owner)",
+        "tn": "name in tn and tn[name] == name_truncated",
+        "only-memb": f"all(g in m0 or g in D for g in set({M}))",
+        "only-owner": "all(g in o0 or g in D for g in set(owner))",
+        # the members being added were in no group before (the `if known_members: ... continue` guard)
+        "new-not-memb": "all(g not in m0 for g in members)",
+        "new-not-owned": "all(g not in o0 for g in members)",
     })
     return contract(
         target,
@@ -78,14 +96,19 @@ def _groups_contract(target, ctx, params, k):
         canaries={"keeps-every-group": f"len(result[{k - 1}]) == len({ctx}.font.groups)"},
         locals={"side1Groups": GROUPS, "side2Groups": GROUPS, "side1Membership": Dict(STR, STR), "side2Membership": Dict(STR, STR),
                 "members": Set(STR), "known_members": Set(STR), "original_name_truncated": STR},
-        # ghost: owner = glyph -> full name of the kept group that contains it; m0 / o0 = snapshots before the member loop
-        ghost_vars={"owner": (Dict(STR, STR), "{}"), "m0": (Dict(STR, STR), "{}"), "o0": (Dict(STR, STR), "{}")},
+        # ghost: owner = glyph -> full name of the kept group that contains it; tn = kept group -> its truncated name;
+        # m0 / o0 = snapshots before the member loop
+        ghost_vars={"owner": (Dict(STR, STR), "{}"), "m0": (Dict(STR, STR), "{}"), "o0": (Dict(STR, STR), "{}"), "tn": (Dict(STR, STR), "{}")},
         ghost={
-            f"side{k}Groups[name] = tuple(sorted(members))": [f"m0 = {{**{M}}}", "o0 = {**owner}"],
+            f"side{k}Groups[name] = tuple(sorted(members))": [f"m0 = {{**{M}}}", "o0 = {**owner}", "tn = {**tn, name: name_truncated}"],
             f"side{k}Membership[member] = name_truncated": ["owner = {**owner, member: name}"],
         },
         # the pruning comprehension is the intersection with the exported glyph set (proved once, then used under sorted())
-        hints={"members = {g for g in members if g in allGlyphs}": ["members == font.groups[name] & allGlyphs"]},
+        hints={"members = {g for g in members if g in allGlyphs}": ["members == font.groups[name] & allGlyphs"],
+               # element-wise reading of the overlap test (so that `not known_members` can be used glyph by glyph)
+               f"known_members = members.intersection(side{k}Membership.keys())": [f"all(iff(g in known_members, g in {M}) for g in members)"],
+               # the truncated name, under the name used by the quantified clauses
+               f"name_truncated = name[len(SIDE{k}_PREFIX):]": [f"name_truncated == k5_trunc(name, {len(P1)})"]},
         loops={
             "for (name, members) in font.groups.items()": Loop(index="i", seq="K", invariants=_clauses(ctx, P, f"side{k}Groups", M, i="i")),
             f"for member in members#{k}": memb_loop,
